@@ -524,7 +524,7 @@ def main():
         sys.exit(2)
     log(f'[{pid}] built {len(hs)} harnesses in {build_s:.0f}s')
 
-    default_to = 600 if tier == 'quick' else 1800
+    default_to = 1200 if tier == 'quick' else 2400
     default_mem = 12 if tier == 'quick' else 24
     # thorough-tier processes may use up to 24-30 GB each: fewer of them in parallel
     jobs = a.jobs or int(os.environ.get('VERIF_JOBS', '12' if tier == 'quick' else '5'))
